@@ -242,6 +242,10 @@ pub fn analyze<'a>(tree: &'a ExprTree) -> Result<Info<'a>> {
     analyzer.visit(&tree.expr)
 }
 
+#[cfg(feature = "verif-hooks")]
+#[path = "analyze_verif.rs"]
+pub mod verif;
+
 #[cfg(test)]
 mod tests {
     use super::analyze;
